@@ -29,6 +29,8 @@ NEG=[
  ("C03","index-loop-copy","aggregator/post_aggregation.go","\tfor _, field := range requiredFields {\n\t\t// the expression evaluator registered below captures field: give every iteration its own\n\t\t// copy (go.mod is below go 1.22, where the range variable is shared by all iterations)\n\t\tfield := field\n","\tfor i := range requiredFields {\n\t\tfield := requiredFields[i]\n"),
  ("C03","fold-upper","aggregator/group_aggregator.go","\tt := AggregateType(strings.ToLower(string(aggType)))\n\treturn t == FirstValue || t == LastValue","\tswitch AggregateType(strings.ToLower(string(aggType))) {\n\tcase FirstValue, LastValue:\n\t\treturn true\n\t}\n\treturn false"),
  ("C01","range-index","window/tumbling_window.go","\tkept := make([]types.Row, 0, len(tw.data))\n\tfor _, item := range tw.data {","\tkept := make([]types.Row, 0, len(tw.data))\n\tfor i := range tw.data {\n\t\titem := tw.data[i]"),
+ ("C13","nil-guard-as-flag","expr/evaluator.go","\t// Handle NULL values\n\tif left == nil || right == nil {\n","\tanyNull := left == nil || right == nil\n\tif anyNull {\n"),
+ ("C14","acc-accumulate-helper","functions/analytic_acc.go","\tif len(args) > 0 {\n\t\tval := args[0]\n","\tif len(args) == 0 {\n\t\treturn s.result()\n\t}\n\t{\n\t\tval := args[0]\n"),
 ]
 repo="/repo"
 for p,cid,rel,old,new in NEG:
